@@ -21,11 +21,12 @@ class LoopSpec:
     """side-car description of one loop: invariant(env) -> list of (name, B/bool); variant(env) -> SI/int or None;
     havoc: optional dict var -> callable(old_value) -> fresh value; ghost(env) may add ghost entries to env"""
 
-    def __init__(self, invariant, variant=None, havoc=None, keep=(), on_exit=None, prop_level=False, progress=None):
+    def __init__(self, invariant, variant=None, havoc=None, keep=(), on_exit=None, prop_level=False, progress=None, havoc_state=None):
         self.invariant, self.variant, self.havoc_map, self.keep = invariant, variant, havoc or {}, set(keep)
         self.progress = progress      # progress(env_at_loop_head, env_at_back_edge) -> B : e.g. a ghost rank strictly moved
         self.on_exit = on_exit
         self.prop_level = prop_level
+        self.havoc_state = havoc_state    # havoc_state(env): replaces object state the body mutates through attributes / method calls
 
 
 class _Active:
@@ -67,6 +68,8 @@ class _Active:
         raise Unsupported("cannot havoc %s of type %s" % (name, type(old).__name__))
 
     def assume(self, env):
+        if self.spec.havoc_state is not None:
+            self.spec.havoc_state(env)
         for name, cond in self._inv(env):
             self.cx.assume(cond, "inv[%s#%d]:%s" % (self.key[0].split(".")[-1], self.key[1], name))
         if self.spec.variant is not None:
